@@ -2,6 +2,7 @@ from miasm.core.utils import decode_hex, encode_hex
 import miasm.expression.expression as m2_expr
 from miasm.ir.symbexec import SymbolicExecutionEngine
 from miasm.arch.x86.arch import is_op_segm
+from miasm.jitter.csts import EXCEPT_ACCESS_VIOL, PAGE_READ, PAGE_WRITE
 
 
 class EmulatedSymbExec(SymbolicExecutionEngine):
@@ -67,6 +68,32 @@ class EmulatedSymbExec(SymbolicExecutionEngine):
             self.symbols.symbols_id[reg] = m2_expr.ExprInt(0, size=reg.size)
 
     # Memory management
+    def _check_access(self, addr, size, access):
+        """Return True if the @size bytes at @addr are mapped in pages granting
+        @access. Otherwise report EXCEPT_ACCESS_VIOL in the vm, as the C
+        backends do (vm_mngr.c), instead of raising a Python exception"""
+        for cur in range(addr, addr + size):
+            if not (self.vm.is_mapped(cur, 1) and
+                    self.vm.get_mem_access(cur) & access):
+                self.vm.set_exception(
+                    self.vm.get_exception() | EXCEPT_ACCESS_VIOL
+                )
+                return False
+        return True
+
+    def eval_updt_assignblk(self, assignblk):
+        """
+        Apply an AssignBlock on the current state. As in the C backends, if one
+        of its memory reads faults, none of its assignments is applied
+        @assignblk: AssignBlock instance
+        """
+        dst_src = self.eval_assignblk(assignblk)
+        if self.vm.get_exception() & EXCEPT_ACCESS_VIOL == EXCEPT_ACCESS_VIOL:
+            return []
+        for dst, src in dst_src.items():
+            self.apply_change(dst, src)
+        return [dst for dst in dst_src if dst.is_mem()]
+
     def mem_read(self, expr_mem):
         """Memory read wrapper for symbolic execution
         @expr_mem: ExprMem"""
@@ -76,6 +103,9 @@ class EmulatedSymbExec(SymbolicExecutionEngine):
             return super(EmulatedSymbExec, self).mem_read(expr_mem)
         addr = int(addr)
         size = expr_mem.size // 8
+        if not self._check_access(addr, size, PAGE_READ):
+            # As in vm_mngr.c, a faulting read gives 0
+            return m2_expr.ExprInt(0, expr_mem.size)
         value = self.vm.get_mem(addr, size)
         if self.vm.is_little_endian():
             value = value[::-1]
@@ -107,8 +137,9 @@ class EmulatedSymbExec(SymbolicExecutionEngine):
         if self.vm.is_little_endian():
             content = content[::-1]
 
-        # Write in VmMngr context
-        self.vm.set_mem(addr, content)
+        # Write in VmMngr context; as in vm_mngr.c, a faulting write is not done
+        if self._check_access(addr, size, PAGE_WRITE):
+            self.vm.set_mem(addr, content)
 
     # Interaction symbexec <-> jitter
     def update_cpu_from_engine(self):
